@@ -440,6 +440,32 @@ class StepDomain(epick.PickDomain):
         self.lazy = {}
         self.helpers = set()
 
+    finite_loops = True
+
+    def iterate(self, it, v):
+        from lib.interp import StructVal
+        if isinstance(v, (list, tuple)):
+            return list(v)
+        if isinstance(v, StructVal) and v.path.endswith("Range") and isinstance(v.fields.get("start"), int) \
+                and isinstance(v.fields.get("end"), int):
+            return list(range(v.fields["start"], v.fields["end"]))
+        return None
+
+    def insert(self, view, node):
+        # a node created directly in a level view (not through reduce): must be filed in the view of its own level
+        if not (isinstance(view, tuple) and view and view[0] == "levelview") or not (isinstance(node, tuple) and node[0] == "node"):
+            raise Unrecognised("get_or_insert of %r into %r" % (node, view))
+        if view[1] != node[1]:
+            raise Panic("a node labelled level %r is inserted into the view of level %r" % (node[1], view[1]))
+        kids = tuple(node[2])
+        if self.kind is tables.ZBDD:
+            k0 = kids[0]
+            if isinstance(k0, Edge) and k0.node[0] == "T" and getattr(k0.node[1], "short", "") == "Empty":
+                raise Panic("a node with an empty hi edge is created without the zero-suppression rule (not reduced)")
+        elif len(set(map(repr, kids))) == 1:
+            raise Panic("a node with equal children is created without the reduction rule (not reduced)")
+        return Edge(("MK", node[1], kids), self.default_tag())
+
     def default_tag(self):
         return Enum(ETAG + "::None") if self.spec.bcdd else None
 
@@ -572,6 +598,11 @@ class StepDomain(epick.PickDomain):
             if isinstance(a, int) and isinstance(b, int):
                 return min(a, b) if name == "min" else max(a, b)
             raise Unrecognised("%s of %r and %r" % (name, a, b))
+        if name == "rev":
+            r = it.recv(e, env)
+            items = self.iterate(it, r)
+            if items is not None:
+                return list(reversed(items))
         if m in ("std::cmp::Ord::cmp", "core::cmp::Ord::cmp"):
             a = it.recv(e, env)
             (b,) = it.args(e, env)
@@ -1006,6 +1037,9 @@ def run_bdd(ctx, F, rule):
             for vs in VARSETS:
                 sits.append(("f on level %d, vars %s" % (lf, vs), [plain_node("f")(lf), cube(vs, T("True"), T("False"))]))
                 sits.append(("deep f on level %d, vars %s" % (lf, vs), [deep_node("f", lf, plain_mk), cube(vs, T("True"), T("False"))]))
+        for tn in ("True", "False"):
+            for vs in VARSETS[:4]:
+                sits.append(("f is %s, vars %s" % (tn, vs), [T(tn), cube(vs, T("True"), T("False"))]))
         n += check_step(ctx, F, rule, spec, mod + "::quant", algos_q, sits, QOF[q], consts={"Q": qd[q]},
                         label="bdd quant<%s>" % QOF[q], nfun=1)
     algos_r = dict(algos)
@@ -1037,6 +1071,14 @@ def run_bdd(ctx, F, rule):
             for d, ops2 in bin_situations(lambda l: deep_node("f", l, plain_mk), lambda l: deep_node("g", l, plain_mk)):
                 for vs in varsets():
                     sits.append(("deep %s, vars %s" % (d, vs), ops2 + [cube(vs, T("True"), T("False"))]))
+            for lf, lg in ((2, 2), (2, 3), (3, 2)):
+                for vs in ((1,), (1, 2), (1, 3)):
+                    sits.append(("operands on levels %d/%d below the first variable, vars %s" % (lf, lg, vs),
+                                 [plain_node("f")(lf), plain_node("g")(lg), cube(vs, T("True"), T("False"))]))
+            for tn in ("True", "False"):
+                for vs in ((1,), (2,), (1, 2)):
+                    sits.append(("g is %s, vars %s" % (tn, vs), [plain_node("f")(1), T(tn), cube(vs, T("True"), T("False"))]))
+                    sits.append(("f is %s, vars %s" % (tn, vs), [T(tn), plain_node("g")(2), cube(vs, T("True"), T("False"))]))
             n += check_step(ctx, F, rule, spec, mod + "::apply_quant", algos_q, sits,
                             (lambda q, opn: lambda ops3: quant_of(QOF[q], opn, ops3))(q, opn),
                             consts={"Q": qd[q], "OP": qd[opn]}, label="bdd apply_quant<%s,%s>" % (QOF[q], opn), nfun=2)
@@ -1136,6 +1178,9 @@ def run_bcdd(ctx, F, rule):
                                  [bcdd_operand("f", ft, fe)(lf), cube(vs, TT(P), TT(C), P)]))
                     sits.append(("deep f on level %d (%s%s), vars %s" % (lf, ft, fe, vs),
                                  [deep_node("f", lf, bcdd_mk(ft, fe)), cube(vs, TT(P), TT(C), P)]))
+        for tg in (P, C):
+            for vs in VARSETS[:4]:
+                sits.append(("f is the terminal (%s), vars %s" % (tg.short, vs), [TT(tg), cube(vs, TT(P), TT(C), P)]))
         n += check_step(ctx, F, rule, spec, mod + "::quant", algos_q, sits, q, consts={"Q": ops[q]},
                         label="bcdd quant<%s>" % q, nfun=1)
         for opn in ("And", "Xor", "UniqueNand"):
@@ -1150,6 +1195,17 @@ def run_bcdd(ctx, F, rule):
                 for d, ops2 in bin_situations(lambda l: deep_node("f", l, bcdd_mk(ft, gt)), lambda l: deep_node("g", l, bcdd_mk(gt, ft))):
                     for vs in varsets():
                         sits.append(("deep %s (%s%s), vars %s" % (d, ft, gt, vs), ops2 + [cube(vs, TT(P), TT(C), P)]))
+            for lf, lg in ((2, 2), (2, 3), (3, 2)):
+                for vs in ((1,), (1, 2), (1, 3)):
+                    for ft, gt in (("p", "p"), ("c", "p"), ("p", "c")):
+                        sits.append(("operands on levels %d/%d below the first variable (%s%s), vars %s" % (lf, lg, ft, gt, vs),
+                                     [bcdd_operand("f", ft, "c")(lf), bcdd_operand("g", gt, "p")(lg), cube(vs, TT(P), TT(C), P)]))
+            for tg in (P, C):
+                for vs in ((1,), (2,), (1, 2)):
+                    sits.append(("g is the terminal (%s), vars %s" % (tg.short, vs),
+                                 [bcdd_operand("f", "p", "c")(1), TT(tg), cube(vs, TT(P), TT(C), P)]))
+                    sits.append(("f is the terminal (%s), vars %s" % (tg.short, vs),
+                                 [TT(tg), bcdd_operand("g", "c", "p")(2), cube(vs, TT(P), TT(C), P)]))
             sem = {"UniqueNand": "Nand"}.get(opn, opn)
             n += check_step(ctx, F, rule, spec, mod + "::apply_quant", algos_q, sits,
                             (lambda q, sem: lambda ops3: quant_of(q, sem, ops3, P))(q, sem),
@@ -1227,6 +1283,14 @@ def run_zbdd(ctx, F, rule):
                 sits.append(("%s, cube %s from level %d" % (d, {k: v for k, v in lits.items() if k >= lvl}, lvl), [f, zcube(lits, lvl), lvl]))
     n += check_step(ctx, F, rule, spec_r, mod + "::restrict", algos_r, sits,
                     lambda ops3: Edge(("OP", "ZRestrict", (ops3[0], ops3[1]), ops3[2]), None), label="zbdd restrict", nfun=1)
+    # restrict_base itself: the remaining cube below the function's last node
+    sits = []
+    for lvl in (1, 2, 3):
+        for pol in itertools.product((None, True, False), repeat=3):
+            lits = {l + 1: p for l, p in enumerate(pol)}
+            sits.append(("cube %s from level %d" % ({k: v for k, v in lits.items() if k >= lvl}, lvl), [zcube(lits, lvl), lvl]))
+    n += check_step(ctx, F, rule, spec_r, mod + "::restrict::restrict_base", algos_r, sits,
+                    lambda ops2: Edge(("OP", "ZRestrict", (base, ops2[0]), ops2[1]), None), label="zbdd restrict_base", nfun=1)
     # subset0 / subset1 / change
     SUB = {0: "Subset0", 1: "Subset1", -1: "Change"}
 
